@@ -733,6 +733,8 @@ fn create_parent_dirs(
 /// error.
 fn remove_old_file(disk_path: &Path) -> Result<bool, CheckoutError> {
     reject_reserved_existing_path(disk_path)?;
+    #[cfg(jj_vcs_jj_verif)]
+    crate::verif::point("durable", &format!("wc-remove:{}", disk_path.display()));
     match fs::remove_file(disk_path) {
         Ok(()) => Ok(true),
         Err(err) if err.kind() == io::ErrorKind::NotFound => Ok(false),
@@ -2057,6 +2059,8 @@ impl TreeState {
         exec_bit: ExecBit,
         apply_eol_conversion: bool,
     ) -> Result<FileState, CheckoutError> {
+        #[cfg(jj_vcs_jj_verif)]
+        crate::verif::point("durable", &format!("wc-write:{}", disk_path.display()));
         let mut file = File::options()
             .write(true)
             .create_new(true) // Don't overwrite un-ignored file. Don't follow symlink.
@@ -2099,6 +2103,8 @@ impl TreeState {
     }
 
     fn write_symlink(&self, disk_path: &Path, target: String) -> Result<FileState, CheckoutError> {
+        #[cfg(jj_vcs_jj_verif)]
+        crate::verif::point("durable", &format!("wc-write:{}", disk_path.display()));
         let target = symlink_target_convert_to_disk(&target);
 
         if cfg!(windows) {
@@ -2149,6 +2155,8 @@ impl TreeState {
                 message: "Failed to convert the EOL when writing a merge conflict".to_string(),
                 err: err.into(),
             })?;
+        #[cfg(jj_vcs_jj_verif)]
+        crate::verif::point("durable", &format!("wc-write:{}", disk_path.display()));
         let mut file = OpenOptions::new()
             .write(true)
             .create_new(true) // Don't overwrite un-ignored file. Don't follow symlink.
